@@ -967,6 +967,17 @@ func genInsert(r *Rng, sc *ATSchema, taken map[string]bool, o ATGenOpts) *ATStmt
 				es = append(es, &ATExpr{K: 'l', Val: v})
 			}
 		}
+		if o.AllowFindings && useArgs && r.Chance(12) {
+			// the text '?' as a LITERAL among placeholders: the executor takes it for a placeholder (known finding;
+			// a unit test pins exactly that reading of a "?" value)
+			for k, c := range sc.Cols {
+				if c.Typ == 's' && !sc.isPK(k) && es[k].K == 'a' {
+					es[k] = &ATExpr{K: 'l', Val: ATVal{K: 's', S: "?"}}
+					st.Classes = append(st.Classes, "question_mark_literal_in_insert")
+					break
+				}
+			}
+		}
 		st.Rows = append(st.Rows, es)
 	}
 	return st
